@@ -7,13 +7,13 @@ from . import common
 
 ID = 'C12'
 LEVEL = 'exploration'
-BUDGET = {'quick': (6000, 80.0), 'thorough': (300000, 1500.0)}
+BUDGET = {'quick': (4500, 80.0), 'thorough': (300000, 1500.0)}
 RULE = ('one real ECU; a generated history of up to 12 add_timer / remove_timer / subscribe / unsubscribe operations (periods on a grid 1 ms..3 s, one-shot and '
         'periodic, duplicate registrations of one callback, callbacks removing themselves) issued from the application context or from inside a timer callback, '
         'with idle gaps from 0 to several periods and injected frames for the subscribers; each registration carries a unique cookie so every call is attributed; '
         'a timer model gives the allowed firing windows. non-trivial = at least one timer fired; distinct = distinct scenario JSON')
 FAULT_COUNTERS = {'operations issued from inside a timer callback': 'ops_in_timer_ctx', 'callbacks removing themselves': 'self_removals', 'expiries in the same pass': 'same_pass_expiries'}
-REQUIRED_PROBES = ['timer_calls', 'oneshots', 'periodics', 'duplicates', 'ops_in_timer_ctx', 'self_removals', 'removes', 'same_pass_expiries', 'subscriber_calls']
+REQUIRED_PROBES = ['busy_callbacks', 'timer_calls', 'oneshots', 'periodics', 'duplicates', 'ops_in_timer_ctx', 'self_removals', 'removes', 'same_pass_expiries', 'subscriber_calls']
 PERIODS_MS = [1, 2, 5, 10, 10, 20, 50, 100, 250, 500, 1000, 3000]
 GAPS_MS = [0, 0, 0, 1, 5, 10, 10, 20, 100, 600, 2500]
 
@@ -36,6 +36,11 @@ def generate(rng, tier, i):
             if rng.random() < 0.15:
                 o['self_remove_after'] = rng.randint(1, 3)
                 o['self_remove_returns'] = rng.choice([True, False])
+            elif rng.random() < 0.15:
+                # a callback that takes real time (e.g. a blocking bus write): it legitimately delays timers that fall due
+                # while it runs, but nothing that falls due after it has returned
+                b = rng.choice([1, 3, 20, 150])
+                o['busy_ms'] = min(b, max(1, p // 2)) if o['periodic'] else b
             ops.append(o)
         elif r < 0.7:
             ops.append({'op': 'remove', 'cb': rng.randrange(ncb), 'ctx': ctx, 'gap_ms': gap})
@@ -69,6 +74,8 @@ def execute(scn, keep_log=False, hook=None):
     subs = {}           # cb -> list of times subscribe(cb) was performed
     sub_calls = []      # (t, cb)
     pass_marks = []
+    busy = []           # (start, end) of callbacks that took real time
+    busy_open = []      # starts of slow callbacks still running
     injected = []
     feeder = bus.port('X')
 
@@ -87,6 +94,13 @@ def execute(scn, keep_log=False, hook=None):
                 r['calls'].append(stamp())
                 stats['timer_calls'] += 1
                 pass_marks.append((sim.now, sim.events_run))
+                if r.get('busy_ms'):
+                    b0 = sim.now
+                    busy_open.append(b0)
+                    sim.sleep(r['busy_ms'] / 1000.0)
+                    busy_open.remove(b0)
+                    busy.append((b0, sim.now))
+                    stats['busy_callbacks'] += 1
                 sr = r.get('self_remove_after')
                 if sr is not None and len(r['calls']) >= sr:
                     stats['self_removals'] += 1
@@ -108,7 +122,7 @@ def execute(scn, keep_log=False, hook=None):
     def perform(o):
         if o['op'] == 'add':
             r = {'cb': o['cb'], 't_reg': sim.now, 'tick_reg': stamp()[1], 'delta': o['period_ms'] * 1_000_000, 'periodic': o['periodic'], 'calls': [],
-                 'self_remove_after': o.get('self_remove_after'), 'self_remove_returns': o.get('self_remove_returns', False)}
+                 'self_remove_after': o.get('self_remove_after'), 'self_remove_returns': o.get('self_remove_returns', False), 'busy_ms': o.get('busy_ms')}
             if any(x['cb'] == o['cb'] for x in regs):
                 stats['duplicates'] += 1
             regs.append(r)
@@ -155,12 +169,27 @@ def execute(scn, keep_log=False, hook=None):
     t_end = t + min(3 * longest, 7000) * 1_000_000 + 300_000_000
     sim.run_until(t_end)
     t_judge = sim.now
+    for b0 in busy_open:
+        busy.append((b0, t_judge + 10 ** 12))      # still running at the end of the run
     viol += common.thread_violations(w)
     dead = bool(viol)
     slack = lmax + eps
 
-    def removed_before(cb, tcall):
-        return [x for x in removed.get(cb, []) if x < tcall]
+    def allowed(deadline):
+        """Latest legitimate call time for a timer due at `deadline`: scheduling latency, plus the rest of every slow callback
+        that was running (or started within the latency) when it fell due."""
+        t = deadline
+        moved = True
+        while moved:
+            moved = False
+            for (b0, b1) in busy:
+                if b0 <= t + slack and b1 > t:
+                    t = b1
+                    moved = True
+        return t + slack
+
+    def busy_between(a, b):
+        return any(b0 < b and b1 > a for (b0, b1) in busy)
 
     for k, r in enumerate(regs):
         cb, t_reg, delta = r['cb'], r['t_reg'], r['delta']
@@ -185,11 +214,11 @@ def execute(scn, keep_log=False, hook=None):
         if not r['periodic'] or (r.get('self_remove_after') is not None and not r['self_remove_returns']):
             if r['periodic'] is False and len(calls) > 1 and r.get('self_remove_after') is None:
                 viol.append({'clause': 'oneshot-repeated', 'rank': 3, 'msg': 'one-shot timer fired %d times' % len(calls)})
-            if not calls and horizon > t_reg + delta + slack:
+            if not calls and horizon > allowed(t_reg + delta):
                 viol.append({'clause': 'timer-missed', 'rank': 3, 'feat': {'kind': 'oneshot'},
                              'msg': 'one-shot timer (%d ms) registered at +%.3f ms had not fired %.3f ms later (allowed %d ms + %.3f ms)' % (
                                  delta // 1_000_000, (t_reg - t0) / 1e6, (horizon - t_reg) / 1e6, delta // 1_000_000, slack / 1e6)})
-            elif calls and calls[0] > t_reg + delta + slack:
+            elif calls and calls[0] > allowed(t_reg + delta):
                 viol.append({'clause': 'timer-late', 'rank': 4, 'feat': {'kind': 'oneshot'},
                              'msg': 'one-shot timer (%d ms) fired %.3f ms after registration (allowed %d ms + %.3f ms)' % (
                                  delta // 1_000_000, (calls[0] - t_reg) / 1e6, delta // 1_000_000, slack / 1e6)})
@@ -199,14 +228,14 @@ def execute(scn, keep_log=False, hook=None):
         bad = None
         for c in calls:
             off = (c - t_reg) % delta
-            if off > slack and (c - t_reg) >= delta:
+            if off > slack and (c - t_reg) >= delta and c > allowed(c - off):
                 bad = ('timer-late', 'periodic timer (%d ms) fired %.3f ms after its grid point (allowed %.3f ms)' % (delta // 1_000_000, off / 1e6, slack / 1e6))
                 break
-            if c - prev > delta + slack:
+            if c - prev > delta + slack and not busy_between(prev, c):
                 bad = ('timer-missed', 'periodic timer (%d ms): %.3f ms between consecutive calls' % (delta // 1_000_000, (c - prev) / 1e6))
                 break
             prev = c
-        if bad is None and horizon - prev > delta + slack:
+        if bad is None and horizon - prev > delta + slack and not busy_between(prev, horizon):
             if r.get('self_remove_after') is None or len(calls) < r['self_remove_after']:
                 bad = ('timer-missed', 'periodic timer (%d ms) registered at +%.3f ms: last call %.3f ms before the end of its life' % (
                     delta // 1_000_000, (t_reg - t0) / 1e6, (horizon - prev) / 1e6))
@@ -228,6 +257,8 @@ def execute(scn, keep_log=False, hook=None):
             stats['same_pass_expiries'] += 1
     if not viol:
         for p in st.thread_problems():
+            if p == 'job-thread-not-waiting:sleep' and busy_open:
+                continue        # parked inside a slow callback of this scenario
             viol.append({'clause': 'job-thread-state', 'rank': 3, 'msg': p})
     res = {'violations': viol[:5], 'stats': stats, 'nontrivial': stats['timer_calls'] > 0, 'digest': sim.digest(), 'sim_s': (sim.now - t0) / 1e9,
            'summary': '%d ops, %d registrations, %d timer calls, %d subscriber calls' % (len(scn['ops']), len(regs), stats['timer_calls'], stats['subscriber_calls'])}
